@@ -44,7 +44,7 @@ def oracle_c09(im, ops, i, st, steps):
     return st.get('_probs', [])
 
 def run_histories(pid, seed, tier, lean, weights, oracle_step, nontrivial, quick_n, thorough_n,
-                  length=(6, 30), with_assets=True, extra_cases=()):
+                  length=(6, 30), with_assets=True, extra_cases=(), gen_every=1):
     rnd = random.Random(seed)
     res = Result()
     n = quick_n if tier == 'quick' else thorough_n
@@ -56,13 +56,13 @@ def run_histories(pid, seed, tier, lean, weights, oracle_step, nontrivial, quick
     model = gen = None
     if lean['build_ok']:
         # third column: the same histories executed with the GENERATED code (Py/Gen/*.lean, Py/GenAgSerial/*.lean)
-        model, gen = genexec.run_both([{'op': 'ag_hist', 'case': i, 'ops': h} for i, h in enumerate(hists)], 'gen_ag_hist')
+        model, gen = genexec.run_both([{'op': 'ag_hist', 'case': i, 'ops': h} for i, h in enumerate(hists)], 'gen_ag_hist', every=gen_every)
     for hi, ops in enumerate(hists):
         res.evaluations += 1
         im = Impl()
         mo_steps = None
         go_steps, gbad = None, None
-        if gen is not None:
+        if gen is not None and gen[hi] is not None:
             if 'error' in gen[hi]:
                 res.violations.append(genexec.driver_error(pid, gen[hi]['error'], {'ops': ops}))
             else:
